@@ -5,6 +5,8 @@ import EvyV.Props.C01Pratt
 import EvyV.Props.C02
 import EvyV.Props.C02Sound
 import EvyV.Props.C02Stmt
+import EvyV.Props.C02Full
+import EvyV.Props.C02Example
 import EvyV.Props.C03
 import EvyV.Props.C04
 import EvyV.Props.C05
